@@ -33,7 +33,7 @@ META = {
     ],
     'assumptions': ['A1', 'A7', 'shapes: scalar parameters, vectors of 2 parameters and broadcast pairs (2,1) x (1,2) (configurations; values are symbolic)'],
     'not_decided': ['geometry constructors (__init__, frommatrix) and the factories cone_beam_geometry / helical_geometry (detector coverage of the volume; parallel_beam_geometry IS under contract)',
-                    'slicing a geometry by angle index', 'ASTRA vector conversions', 'check_bounds=True paths (parameter range checks)'],
+                    'slicing: only the constructor-argument contract of __getitem__ (the constructors themselves are not under contract)', 'ASTRA vector conversions', 'check_bounds=True paths (parameter range checks)'],
 }
 
 UT = 'odl.tomo.util.utility:'
@@ -874,6 +874,99 @@ def unit_cone_factory():
     return Unit('factory/cone_beam_geometry/ndim=2', run, funcs=[CONE + 'cone_beam_geometry'], config={'ndim': 2, 'factory': 'cone_beam_geometry'})
 
 
+# ---------------------------------------------------------------------------------------------------------
+# slicing: g[indices] is built from the parent's own CONSTRUCTOR arguments
+
+class Sent(object):
+    """an opaque value known by identity (a constructor argument of the parent geometry)"""
+
+    def __init__(self, name):
+        self.name = name
+
+    def __repr__(self):
+        return '<%s>' % self.name
+
+
+SLICE_SPEC = {
+    # class: (module prefix, {constructor keyword: where the parent keeps the value THE CONSTRUCTOR WAS GIVEN}, detector part slice)
+    'Parallel2dGeometry': (PAR, {'det_pos_init': '_det_pos_init_arg', 'det_axis_init': '_det_axis_init_arg', 'translation': '_Geometry__translation'}, 1),
+    'Parallel3dAxisGeometry': (PAR, {'axis': '_AxisOrientedGeometry__axis', 'det_pos_init': '_det_pos_init_arg', 'det_axes_init': '_det_axes_init_arg',
+                                     'translation': '_Geometry__translation'}, 'rest'),
+    'FanBeamGeometry': (CONE, {'src_radius': '_FanBeamGeometry__src_radius', 'det_radius': '_FanBeamGeometry__det_radius', 'det_curvature_radius': 'detector.radius',
+                               'src_to_det_init': '_FanBeamGeometry__src_to_det_init', 'det_axis_init': '_det_axis_init_arg', 'src_shift_func': '_FanBeamGeometry__src_shift_func',
+                               'det_shift_func': '_FanBeamGeometry__det_shift_func', 'translation': '_Geometry__translation'}, 1),
+    'ConeBeamGeometry': (CONE, {'src_radius': '_ConeBeamGeometry__src_radius', 'det_radius': '_ConeBeamGeometry__det_radius', 'det_curvature_radius': 'detector.radius',
+                                'pitch': '_ConeBeamGeometry__pitch', 'axis': '_AxisOrientedGeometry__axis', 'offset_along_axis': '_ConeBeamGeometry__offset_along_axis',
+                                'src_to_det_init': '_src_to_det_init_arg', 'det_axes_init': '_det_axes_init_arg', 'src_shift_func': '_ConeBeamGeometry__src_shift_func',
+                                'det_shift_func': '_ConeBeamGeometry__det_shift_func', 'translation': '_Geometry__translation'}, 'rest'),
+}
+
+
+def unit_slicing(cname):
+    """the slice is constructed from the sliced partitions and the values the parent's constructor was given - not from values the
+    constructor has already transformed (det_pos_init is translated in place by __init__) -, every constructor parameter the parent
+    carries is handed on, and the parent's own values are not written to"""
+    mod, spec, dslice = SLICE_SPEC[cname]
+
+    def run(ctx):
+        I = ctx.I
+
+        def path(st):
+            fr = ip.Frame(st)
+            g = ip.Obj(I.get_class(mod + cname))
+            det = ip.Obj(I.get_class(DET + 'CircularDetector'))
+            det.fields['_CircularDetector__radius'] = Sent('detector.radius')
+            det.partial = True
+            g.fields['_Geometry__detector'] = det
+            sents = {}
+            for kw, where in spec.items():
+                sents[kw] = det.fields['_CircularDetector__radius'] if where == 'detector.radius' else Sent(where)
+                if where != 'detector.radius':
+                    g.fields[where] = sents[kw]
+            # values the constructor derives (and that must NOT be fed back): the translated reference point
+            g.fields['_ParallelBeamGeometry__det_pos_init'] = Sent('det_pos_init (already translated by __init__)')
+            g.partial = True
+            calls = []
+
+            class Part(object):
+                def __init__(self, tag):
+                    self.tag = tag
+
+                def pv_getitem(self, I_, fr_, idx):
+                    return Part(self.tag + [('index', idx)])
+
+                def pv_getattr(self, I_, fr_, name):
+                    if name == 'byaxis':
+                        return Part(self.tag + ['byaxis'])
+                    raise Unsupported('partition.%s' % name)
+            st.cuts[GEO + 'Geometry.partition'] = lambda I_, fr_, self: Part(['partition'])
+            st.cut_props.add(GEO + 'Geometry.partition')
+            st.cuts[mod + cname + '.__init__'] = lambda I_, fr_, self, *a, **k: calls.append((a, k))
+            idx = (slice(1, 3), slice(None))
+            try:
+                I.call(I._getattr(g, '__getitem__', fr), [idx], {}, fr)
+            except ip.PyRaise as e:
+                return ('raise', e.exc)
+            return ('ok', dict(calls=calls, sents=sents, idx=idx, g=g))
+        info = {'class': cname}
+        for st, (status, r) in ctx.explore(path):
+            if status == 'raise':
+                ctx.fail(st, 'slicing does not raise', 'raises %s' % lib.exc_desc(r), info)
+                continue
+            calls, sents, idx = r['calls'], r['sents'], r['idx']
+            ctx.prove(st, 'the slice is built by one constructor call of the same class', len(calls) == 1, info)
+            if len(calls) != 1:
+                continue
+            a, k = calls[0]
+            exp_a = ['partition', ('index', idx), 'byaxis', ('index', 0)]
+            exp_d = ['partition', ('index', idx), 'byaxis', ('index', 1 if dslice == 1 else slice(1, None))]
+            ctx.prove(st, 'angle / detector partitions are the sliced joint partition by axis', len(a) == 2 and getattr(a[0], 'tag', None) == exp_a and getattr(a[1], 'tag', None) == exp_d, info)
+            ctx.prove(st, 'every constructor parameter the parent carries is handed on (no more, no less)', set(k) == set(sents), dict(info, missing=sorted(set(sents) - set(k)), extra=sorted(set(k) - set(sents))))
+            for kw in sorted(set(k) & set(sents)):
+                ctx.prove(st, 'slice: %s is the value the parent\'s constructor was given' % kw, k[kw] is sents[kw], dict(info, got=repr(k[kw]), want=repr(sents[kw])))
+    return Unit('slicing/%s' % cname, run, funcs=[mod + cname + '.__getitem__'], config={'class': cname})
+
+
 def unit_canary():
     """must fail: the transpose of a 2d rotation claimed equal to the rotation"""
     def run(ctx):
@@ -910,5 +1003,7 @@ def units(tier, seed):
     for nd in (2, 3):
         us.append(unit_parallel_factory(nd))
     us.append(unit_cone_factory())
+    for cn in SLICE_SPEC:
+        us.append(unit_slicing(cn))
     us.append(unit_canary())
     return us
